@@ -45,6 +45,7 @@ def main():
     finally:
         sh("git -C /repo checkout -- .")
         sh("git -C /repo clean -fdq src")
+        sh("for t in %s/tools/extract_*.py; do python3 $t /repo %s/coq/gen; done" % (ROOT, ROOT))
     json.dump(out, open(os.path.join(ROOT, "seeded", seed, "eval.json"), "w"), indent=1)
     return 0
 
